@@ -579,7 +579,7 @@ func begin(t *testing.T) {
 	evid.Assume("sender side = lib/rtppack, anchored on hand-written RFC vectors; 32-bit RTP timestamp wrap, F=1 units, filler NAL units and RTP padding are outside the generated domain")
 	evid.Assume("without sprop parameter sets in the SDP, units sent before the in-band parameter sets are complete are withheld by documented design (metadata gate) and are not demanded")
 	evid.Assume("presentation times are compared only between frames with no sender report delivered between their packets (one sync-clock epoch); the jump of all PTS at the first sender report is outside the comparison")
-	evid.Checks(20000, 250000)
+	evid.Checks(16000, 250000)
 	t.Parallel()
 }
 
